@@ -145,6 +145,11 @@ M = [
  ('C20', 'o03-final-warning-before-restore', 'rebench/denoise_client.py',
   "    num_cores = get_number_of_cores()\n\n    env = os.environ\n    values = set(denoise_result.details.values())",
   "    if not denoise_result.succeeded and show_warning:\n        ui.error(denoise_result.warn_msg)\n    num_cores = get_number_of_cores()\n\n    env = os.environ\n    values = set(denoise_result.details.values())"),
+ ('C20', 'q01-startup-warning-handler-only-exception', 'rebench/denoise_client.py',
+  "            ui.warning(msg)\n        except BaseException:", "            ui.warning(msg)\n        except Exception:"),
+ ('C20', 'q02-report-parsed-only-on-exit-0', 'rebench/denoise_client.py',
+  "    except subprocess.CalledProcessError as e:\n        output = output_as_str(e.output)\n    except FileNotFoundError as e:\n        print(\"FileNotFoundError\")",
+  "    except subprocess.CalledProcessError as e:\n        output = 'exit status ' + str(e.returncode)\n    except FileNotFoundError as e:\n        print(\"FileNotFoundError\")"),
  ('C20', 'n14-num-cores-minus-one', 'rebench/executor.py',
   'cmdline += "--num-cores " + str(num_cores) + " "', 'cmdline += "--num-cores " + str(num_cores - 1) + " "'),
 ]
